@@ -126,7 +126,7 @@ def replay(path):
         b = build.build_scan_wrapper(scratch)
         v = build.build_scan_validator(scratch, b["dir"])
         try:
-            p = subprocess.run([v, "replay", j["arguments"]], capture_output=True, text=True, timeout=60)
+            p = subprocess.run([v, "replay", scanner.describe_tts(j["token_trees"])], capture_output=True, text=True, timeout=60)
             print(p.stdout + p.stderr[-400:])
             bad = p.returncode not in (0, 1, 2)      # 3 = panicked, negative = killed by a signal (1 = a C16 disagreement, not C18's business)
         except subprocess.TimeoutExpired:
